@@ -43,15 +43,30 @@ def _summarise(res):
     return res.to_dict()
 
 
-RUN_WALL_LIMIT = 40
+RUN_WALL_LIMIT = 40  # seconds of *CPU time* of this process (ITIMER_VIRTUAL): a loaded machine does not shorten it
 
 
 class RunHung(BaseException):
     pass
 
 
+_HUNG = {"flag": False}
+
+
 def _on_alarm(signum, frame):
+    # Twisted's callback runner catches everything, BaseException included: the exception may be swallowed and the run
+    # go on in a corrupted state.  The flag makes whatever such a run reports void; the repeating timer interrupts again.
+    _HUNG["flag"] = True
     raise RunHung()
+
+
+def _arm():
+    _HUNG["flag"] = False
+    signal.setitimer(signal.ITIMER_VIRTUAL, RUN_WALL_LIMIT, 2.0)
+
+
+def _disarm():
+    signal.setitimer(signal.ITIMER_VIRTUAL, 0)
 
 
 HANG_SIG = "C12:decoding-did-not-terminate"
@@ -60,21 +75,25 @@ HANG_SIG = "C12:decoding-did-not-terminate"
 def run_plan_dict(plan):
     """Run one plan in this process, guarded by the wall-clock watchdog (a hang becomes a result, not a hang)."""
     mod = family(plan["family"])
-    old = signal.signal(signal.SIGALRM, _on_alarm)
-    signal.alarm(RUN_WALL_LIMIT)
+    old = signal.signal(signal.SIGVTALRM, _on_alarm)
+    _arm()
     try:
         res = mod.run_plan(plan)
+        _disarm()
+        if _HUNG["flag"]:
+            raise RunHung()
     except RunHung:
+        _disarm()
         from .observe import RunResult
         res = RunResult()
         res.digest = "hang"
         if plan.get("cfg", {}).get("variant") in ("garbage", "corrupt"):
-            res.violate("C12", HANG_SIG, "run did not return to the simulator within %d s of wall clock" % RUN_WALL_LIMIT)
+            res.violate("C12", HANG_SIG, "run did not return to the simulator within %d s of CPU time" % RUN_WALL_LIMIT)
         else:
             res.harness_error = "HANG"
     finally:
-        signal.alarm(0)
-        signal.signal(signal.SIGALRM, old)
+        _disarm()
+        signal.signal(signal.SIGVTALRM, old)
     return res
 
 
@@ -82,7 +101,7 @@ def _work(job):
     """Run a chunk of seeds of one family; return an aggregate (keeps IPC small)."""
     fam, tier, seeds, prop, wall_cap = job
     faulthandler.dump_traceback_later(wall_cap, exit=True)
-    signal.signal(signal.SIGALRM, _on_alarm)
+    signal.signal(signal.SIGVTALRM, _on_alarm)
     mod = family(fam)
     agg = {
         "family": fam, "runs": 0, "events": 0, "sim_time": 0.0, "faults": {}, "probes": {}, "orders": [],
@@ -99,21 +118,23 @@ def _work(job):
             continue
         for idx, plan in enumerate(plans):
             try:
-                signal.alarm(RUN_WALL_LIMIT)
+                _arm()
                 try:
                     res = mod.run_plan(plan)
                 finally:
-                    signal.alarm(0)
+                    _disarm()
+                if _HUNG["flag"]:
+                    raise RunHung()  # it fired and was swallowed somewhere inside: the result is void
             except RunHung:
                 if prop == "C12" and plan.get("cfg", {}).get("variant") in ("garbage", "corrupt"):
                     # termination on hostile bytes *is* the property there
                     agg["violations"].append({"seed": seed, "idx": idx, "sig": "C12:decoding-did-not-terminate",
-                                              "msg": "run did not return to the simulator within %d s of wall clock while hostile bytes were being decoded: %s" % (
+                                              "msg": "run did not return to the simulator within %d s of CPU time while hostile bytes were being decoded: %s" % (
                                                   RUN_WALL_LIMIT, traceback.format_exc()[-300:].replace("\n", " | ")), "t": None, "digest": None})
                     agg["runs"] += 1
                     continue
                 # event caps do not bound a loop that never returns to the simulator (inside afkak or an oracle)
-                agg["harness"].append({"seed": seed, "idx": idx, "error": "HANG: run exceeded %d s of wall clock: %s" % (
+                agg["harness"].append({"seed": seed, "idx": idx, "error": "HANG: run exceeded %d s of CPU time: %s" % (
                     RUN_WALL_LIMIT, traceback.format_exc()[-900:])})
                 continue
             except Exception:
@@ -155,13 +176,18 @@ def _pool(workers):
     return cf.ProcessPoolExecutor(max_workers=workers, mp_context=ctx)
 
 
-def run_batch(prop, fams, tier, base_seed, workers=None, chunk=None, wall_cap=600, deadline=None):
+_COST = {"gr": 1.5, "co": 0.1, "pr": 0.03, "cl": 0.03, "bc": 0.003}  # rough CPU seconds per run, for sizing the chunks
+
+
+def run_batch(prop, fams, tier, base_seed, workers=None, chunk=None, wall_cap=1800, deadline=None):
     """fams: list of (family, n_seeds).  Returns merged aggregate."""
     workers = workers or min(16, os.cpu_count() or 4)
     jobs = []
     for fam, n in fams:
         seeds = [run_seed(base_seed, i) for i in range(n)]
-        c = chunk or max(1, min(200, n // (workers * 4) or 1))
+        # a chunk is meant to take well under a minute of CPU, so that the per-worker wall cap (a last resort against a
+        # worker that is stuck outside any run) stays far away even on a heavily loaded machine
+        c = chunk or max(1, min(200, int(40 / _COST.get(fam, 0.1)), n // (workers * 4) or 1))
         for j in range(0, n, c):
             jobs.append((fam, tier, seeds[j:j + c], prop, wall_cap))
     merged = {
